@@ -77,6 +77,11 @@ def fetchHolds (items : List Item) (cut o hwm : Int) (i : Impl) : Bool :=
     && (i.out == "eof" || i.out == "unexpectedEOF")
     -- nothing stored at or above the start offset is jumped over
     && (allRecords items).all (fun r => !(o ≤ r.1 && r.1 < i.off) || i.d.contains r)
+    -- v0/v1 items are read whole or not at all: with the contract's first item the position never moves backwards
+    -- wherever the response is cut
+    && (match items with
+        | it :: _ => !(o ≤ it.last && items.all (fun x => match x with | .b2 .. => false | _ => true)) || o ≤ i.off
+        | [] => true)
     -- under the fetch contract (the response starts with the batch containing the offset, sent whole) the
     -- position never moves backwards
     && (match items with
@@ -151,11 +156,15 @@ def step (line : String) : String :=
     match ws.head?, parseImpl impl with
     | some op, some i =>
       let v := variantOf op
-      if op == "fetch" || op == "legacy-fetch" then
+      if op == "fetch" || op == "fetchts" || op == "legacy-fetch" || op == "fetchx" || op == "legacy-fetchx" then
+        -- `fetchx`: the same round read after the batch's adjusted deadline has passed (`expired = true`): the round
+        -- must end with RequestTimedOut instead of io.EOF, everything else as for `fetch`
+        let expired := op.endsWith "fetchx"
         match fieldInt ws "o", fieldInt ws "hwm", fieldInt ws "cut", (field ws "L").bind parseLayout with
         | some o, some hwm, some cut, some items =>
-          let (d, off, r) := readAll v false o hwm (responseTokens items cut)
-          answer (showResult d off r.show) (fetchHolds items cut o hwm i)
+          let (d, off, r) := readAll v expired o hwm (responseTokens items cut)
+          let i' := if expired && i.out == "kafka7" then { i with out := "eof" } else i
+          answer (showResult d off r.show) (fetchHolds items cut o hwm i' && (!expired || i.out == "kafka7" || i.out == "unexpectedEOF"))
         | _, _, _, _ => "bad-op"
       else if op == "iter" || op == "legacy-iter" then
         match fieldInt ws "o", fieldInt ws "hwm", (field ws "budgets").bind (fun s => (s.splitOn ",").mapM (·.toNat?)),
